@@ -37,6 +37,8 @@ pub struct Report {
     pub level: String,
     pub evaluations: u64,
     pub distinct: HashSet<u64>,
+    /// cases that are distinct by construction (enumerations), counted without hashing
+    pub distinct_enumerated: u64,
     pub rule: String,
     pub samples: Vec<Value>,
     pub max_samples: usize,
@@ -64,6 +66,7 @@ impl Report {
             level: level.to_owned(),
             evaluations: 0,
             distinct: HashSet::new(),
+            distinct_enumerated: 0,
             rule: String::new(),
             samples: vec![],
             max_samples: 6,
@@ -92,6 +95,7 @@ impl Report {
     pub fn merge(&mut self, other: Report) {
         self.evaluations += other.evaluations;
         self.distinct.extend(other.distinct);
+        self.distinct_enumerated += other.distinct_enumerated;
         for s in other.samples {
             if self.samples.len() < self.max_samples {
                 self.samples.push(s);
@@ -121,6 +125,14 @@ impl Report {
         self.evaluations += 1;
         if nontrivial {
             self.distinct.insert(hash_str(descriptor));
+        }
+    }
+
+    /// A case that is distinct by construction (member of an enumeration).
+    pub fn case_enumerated(&mut self, nontrivial: bool) {
+        self.evaluations += 1;
+        if nontrivial {
+            self.distinct_enumerated += 1;
         }
     }
 
@@ -247,7 +259,7 @@ impl Report {
             }
         }
 
-        let distinct_n = self.distinct.len() as u64;
+        let distinct_n = self.distinct.len() as u64 + self.distinct_enumerated;
         if self.evaluations == 0 || distinct_n < 2 {
             self.inconclusive("fewer than two distinct non-trivial cases were executed");
         }
